@@ -450,7 +450,7 @@ ASSUME \A i \in 1..NW : TLCSet(100 + i, FALSE)
 Witness == \A i \in 1..NW : WitnessConds[i] => TLCSet(100 + i, TRUE)
 WitnessReport == \A i \in 1..NW : TLCGet(100 + i) \/ PrintT(<<"UNSEEN", i>>)
 
-\* ---- the same as violable invariants (one per TLC run; used by the thorough tier)
+\* ---- the same as violable invariants, for manual runs: the counterexample is a shortest behaviour reaching the situation
 W_NoKill        == \A t \in Task : outcome[t] # "cancelled"
 W_NoKillMe      == \A t \in All : st[t] # "cparked"
 W_NoTwoClaimants == \A k \in Key : Cardinality({t \in All : k \in claimed[t]}) <= 1
